@@ -77,7 +77,14 @@ func (l *listener) Listen(ctx context.Context, onMessage func(msg message) error
 
 		return nil
 	})
-	defer func() { _ = eg.Wait() }()
+	defer func() {
+		// Deferred functions run in reverse order, so the deferred cancel
+		// above has not run yet: cancel explicitly, or waiting for the
+		// interrupt goroutine blocks forever when Listen returns due to an
+		// error while ctx is still alive.
+		cancel()
+		_ = eg.Wait()
+	}()
 
 	for {
 		// Receive and pass incoming NDP messages to the caller.
